@@ -22,6 +22,9 @@
    needs that no text of the shape <<<[^<>]*>>> arises.  With it the transition blocks of the shipped TEMPLATEStateMachine.py
    and TEMPLATEInternals.cs ("-> None:", "<class '", "/// <summary>", "Exit<<<<STATENAMEIFNEXTSTATE>>>>()") are inside the
    grammar (checked by the harness through in_grammar16 on the block lines read from the shipped files).
+   THE INITIAL STATE: a line outside blocks that mentions <<<STATE_0>>> / <<<state_0>>> (InitLine) is part of the syntax: the first
+   stage, filterInitialState, rewrites exactly these lines (first row's start state, as it is / lowerCamelCase), every later stage
+   and phase leaves the result alone; covered by C16_engine_is_ref(_table) (el_first of the element record = getfirststate).
    STILL PARTIAL: signature / member / documentation / attribute tags are not modelled; the shipped TEMPLATEStateMachine.py /
    TEMPLATEInternals.cs as whole files are outside the grammar for that reason.  block_wf keeps three
    conditions that are evaluated per (template, table): substituted names carry no '<' '>', no expanded copy is whitespace
